@@ -201,6 +201,11 @@ func (p *Prog) payloadFormsIn(callee *ssa.Function, site *ssa.Call, caller *ssa.
 		}
 		return
 	}
+	if ld, ok := v.(*ssa.UnOp); ok && ld.Op == token.MUL && p.isFieldLoad(ld, "join") {
+		// the helper reads the accumulation buffer itself instead of being handed it
+		*out = append(*out, payloadForm{origin: "B", cloned: cloned, mode: mode, clone: clone})
+		return
+	}
 	*out = append(*out, payloadForm{origin: "other", detail: p.Sym(v).String()})
 }
 
@@ -493,7 +498,7 @@ func checkT5(c *Ctx, jr *joinRoles) {
 			for _, in := range b.Instrs {
 				if call, ok := in.(*ssa.Call); ok {
 					if cal := p.Callee(call); cal != nil && p.funcDisplay(cal) == "time.NewTicker" {
-						_, path, okp := p.Sym(call.Call.Args[0]).FieldPath()
+						_, path, okp := p.upParam(p.Sym(call.Call.Args[0]), 0).FieldPath() // (the period may be handed down as an argument)
 						okTicker = okp && path[len(path)-1] == "interruptInterval"
 						c.R.Check(okTicker, "T5", joinKey(jr, fn, "ticker"), p.InstrPos(call), "ticker period = interruptInterval", "ticker period is "+p.Sym(call.Call.Args[0]).String()+", not the computed interruptInterval: the timeout is examined too rarely")
 						c.R.Check(!blockInLoop(call.Block()), "T5", joinKey(jr, fn, "ticker-once"), p.InstrPos(call), "one ticker for the whole loop", "a new ticker is created on every iteration: each arriving element restarts the tick phase, so under a trickle faster than the interval no tick ever fires and the buffer is never flushed")
@@ -567,6 +572,16 @@ func checkT5(c *Ctx, jr *joinRoles) {
 			}
 		}
 	}
+	// the interval handed to the goroutine with the go statement instead of through a field
+	for fn := range inCtor {
+		for _, v := range p.virtualFieldStores(fn, "interruptInterval") {
+			if ex, ok := resolveUp(v, 0).(*ssa.Extract); ok && ex.Index == 0 {
+				if call, ok := ex.Tuple.(*ssa.Call); ok && p.IsProduct(p.Callee(call)) {
+					calcCall = call
+				}
+			}
+		}
+	}
 	if calcCall == nil {
 		c.R.Fail("T5", jr.key+"#ctor", p.Pos(ctor.Pos()), "UNRESOLVED-ANCHOR: constructor does not store the result of an interval computation in interruptInterval")
 		return
@@ -579,12 +594,29 @@ func checkT5(c *Ctx, jr *joinRoles) {
 		if base := s1.Args[0].StripConv(); base.Op == "call" {
 			if nc, ok := base.V.(*ssa.Call); ok {
 				if nf := p.Callee(nc); nf != nil && p.IsProduct(nf) && nf.Signature.Recv() != nil && namedOrigin(nf.Signature.Recv().Type()) != nil && strings.HasSuffix(namedOrigin(nf.Signature.Recv().Type()).Obj().Name(), "Opts") {
-					normalised = true
+					// ... and that method does substitute a usable default for zero
+					if _, okd := p.defaultsInaccuracy(nf); okd {
+						normalised = true
+					}
 				}
 			}
 		}
 	}
-	okArgs := strings.HasSuffix(a0, ".Timeout") && strings.HasSuffix(a1, ".TimeoutInaccuracy") && normalised
+	// ... or the constructor substitutes the default in its own copy of the options before the call
+	inlineDefault := false
+	if ld, isLd := calcCall.Call.Args[1].(*ssa.UnOp); isLd && ld.Op == token.MUL && !normalised {
+		if fa, isFA := ld.X.(*ssa.FieldAddr); isFA && fieldName(fa.X.Type(), fa.Field) == "TimeoutInaccuracy" {
+			if stores, okd := p.defaultsInaccuracy(calcCall.Parent()); okd {
+				inlineDefault = true
+				for _, st := range stores {
+					if st.Addr.(*ssa.FieldAddr).X != fa.X || !reachesInstr(st, calcCall) {
+						inlineDefault = false
+					}
+				}
+			}
+		}
+	}
+	okArgs := strings.HasSuffix(a0, ".Timeout") && ((strings.HasSuffix(a1, ".TimeoutInaccuracy") && normalised) || inlineDefault)
 	c.R.Check(okArgs, "T5", jr.key+"#ctor-args", p.InstrPos(calcCall), "computed from (Timeout, TimeoutInaccuracy) of the normalised options", "interval computed from ("+a0+", "+a1+"): expected Opts.Timeout and the normalised Opts.TimeoutInaccuracy (default substituted for 0)")
 	// (c) formula: the non-zero results of the calc function, looking through wrappers that pass
 	// their parameters on and through helpers that compute a part of it (their single non-constant
@@ -762,6 +794,132 @@ func checkT5(c *Ctx, jr *joinRoles) {
 func isLoopFn(jr *joinRoles, fn *ssa.Function) bool {
 	for _, l := range jr.loops {
 		if l == fn {
+			return true
+		}
+	}
+	return false
+}
+
+// varargsElems: the values stored into the slots of a `f(a, b, ...)` variadic argument slice.
+func varargsElems(v ssa.Value) ([]ssa.Value, bool) {
+	sl, ok := v.(*ssa.Slice)
+	if !ok || sl.Low != nil || sl.High != nil {
+		return nil, false
+	}
+	al, ok := sl.X.(*ssa.Alloc)
+	if !ok || al.Comment != "varargs" {
+		return nil, false
+	}
+	at, ok := al.Type().(*types.Pointer).Elem().(*types.Array)
+	if !ok {
+		return nil, false
+	}
+	out := make([]ssa.Value, at.Len())
+	for _, r := range *al.Referrers() {
+		ia, ok := r.(*ssa.IndexAddr)
+		if !ok {
+			continue
+		}
+		k, isK := constDuration(ia.Index)
+		if !isK || k < 0 || k >= at.Len() {
+			return nil, false
+		}
+		for _, rr := range *ia.Referrers() {
+			if st, ok := rr.(*ssa.Store); ok && st.Addr == ia {
+				out[k] = st.Val
+			}
+		}
+	}
+	for _, e := range out {
+		if e == nil {
+			return nil, false
+		}
+	}
+	return out, true
+}
+
+// defaultsInaccuracy: fn replaces a zero TimeoutInaccuracy of its local copy of the options by a
+// default between 1 and 100 - `if x == 0 { x = k }` or `x = cmp.Or(x, k)` - and writes the field in
+// no other way. Returns the stores.
+func (p *Prog) defaultsInaccuracy(fn *ssa.Function) ([]*ssa.Store, bool) {
+	var stores []*ssa.Store
+	okAll := true
+	goodDefault := func(v ssa.Value) bool {
+		k, isK := constDuration(v)
+		return isK && k >= 1 && k <= 100
+	}
+	for _, b := range fn.Blocks {
+		for _, in := range b.Instrs {
+			st, ok := fieldStore(in, "TimeoutInaccuracy")
+			if !ok {
+				continue
+			}
+			fa := st.Addr.(*ssa.FieldAddr)
+			if _, isAl := fa.X.(*ssa.Alloc); !isAl {
+				okAll = false
+				continue
+			}
+			isField := func(v ssa.Value) bool {
+				ld, isLd := v.(*ssa.UnOp)
+				if !isLd || ld.Op != token.MUL {
+					return false
+				}
+				fa2, isFA := ld.X.(*ssa.FieldAddr)
+				return isFA && fa2.X == fa.X && fa2.Field == fa.Field
+			}
+			good := false
+			switch {
+			case goodDefault(st.Val):
+				// under `field == 0`
+				for _, e := range InstrDomEdges(st) {
+					iff := e.From.Instrs[len(e.From.Instrs)-1].(*ssa.If)
+					base, neg := condOf(iff.Cond)
+					if bo, isB := base.(*ssa.BinOp); isB && (bo.Op == token.EQL || bo.Op == token.NEQ) {
+						// the edge asserts field == 0 (the true side of ==, the false side of !=)
+						truth := (e.Succ == 0) != neg
+						if (bo.Op == token.EQL) == truth {
+							if (isField(bo.X) && isZeroConst(bo.Y)) || (isField(bo.Y) && isZeroConst(bo.X)) {
+								good = true
+							}
+						}
+					}
+				}
+			default:
+				if call, isCall := st.Val.(*ssa.Call); isCall {
+					if cal := p.Callee(call); cal != nil {
+						name := p.funcDisplay(cal)
+						if i := strings.Index(name, "["); i >= 0 {
+							name = name[:i]
+						}
+						if name == "cmp.Or" && len(call.Call.Args) == 1 {
+							if els, okv := varargsElems(call.Call.Args[0]); okv && len(els) == 2 && isField(els[0]) && goodDefault(els[1]) {
+								good = len(InstrDomEdges(st)) == 0 || true
+							}
+						}
+					}
+				}
+			}
+			if !good {
+				okAll = false
+			}
+			stores = append(stores, st)
+		}
+	}
+	return stores, okAll && len(stores) > 0
+}
+
+func isZeroConst(v ssa.Value) bool {
+	k, isK := constDuration(v)
+	return isK && k == 0
+}
+
+// reachesInstr: the store (or the test that guards it) is executed before `at` on every path.
+func reachesInstr(st ssa.Instruction, at ssa.Instruction) bool {
+	if instrDominates(st, at) {
+		return true
+	}
+	for _, e := range InstrDomEdges(st) {
+		if e.From != at.Block() && e.From.Dominates(at.Block()) {
 			return true
 		}
 	}
